@@ -67,12 +67,10 @@ func (r *ComDoc) writeSector(sector SecID, content []byte) error {
 
 // Mark a chain of sectors as free
 func freeSectors(sat []SecID, sector SecID) {
-	for {
+	// an empty chain starts with a negative (end-of-chain) marker
+	for sector >= 0 {
 		nextSector := sat[sector]
 		sat[sector] = SecIDFree
-		if nextSector < 0 {
-			break
-		}
 		sector = nextSector
 	}
 }
